@@ -1213,7 +1213,7 @@ pub fn magic_hellos() -> Vec<W> {
 pub fn text_patterns() -> Vec<Vec<u8>> {
     let mut v: Vec<Vec<u8>> = [
         "a.", ".a", ".", "..", "a..b", "A.B", "Www.Example.COM", "www.example.com.", " a", "a ", "a\t", "a\n", "a\r\n", "a\0", "\0", "a\0b", "xn--bcher-kva.example",
-        "*.example.com", "*", "h2", "H2", "http/1.1", "HTTP/1.1", "localhost", "127.0.0.1", "[::1]", "a,b", "a;b", "a/b", "a\\b", "\"a\"", "%41", "a%00",
+        "*.example.com", "*", "::1", "10.0.0.1", "192.168.1.10", "2001:db8::1", "1.2.3.4.", "256.1.1.1", "1.2.3", "0.0.0.0", "255.255.255.255", "::", "fe80::1%eth0", "h2", "H2", "http/1.1", "HTTP/1.1", "localhost", "127.0.0.1", "[::1]", "a,b", "a;b", "a/b", "a\\b", "\"a\"", "%41", "a%00",
     ]
     .iter()
     .map(|s| s.as_bytes().to_vec())
@@ -1387,4 +1387,132 @@ pub fn hellos_with_extension_lists() -> Vec<W> {
         }));
     }
     v
+}
+
+/// oid_filters extensions with the certificate-extension OIDs RFC 8446 4.2.5 names (Key Usage,
+/// Extended Key Usage; DER-wrapped and raw) and DER-shaped values: BIT STRING with every
+/// "unused bits" octet, SEQUENCE of OIDs, and malformed variants.
+pub fn oid_filter_extensions() -> Vec<W> {
+    let oids: [&[u8]; 6] = [
+        &[0x06, 0x03, 0x55, 0x1d, 0x0f],
+        &[0x06, 0x03, 0x55, 0x1d, 0x25],
+        &[0x55, 0x1d, 0x0f],
+        &[0x55, 0x1d, 0x25],
+        &[0x06, 0x08, 0x2b, 0x06, 0x01, 0x05, 0x05, 0x07, 0x03, 0x01],
+        &[0x06, 0x03, 0x55, 0x1d, 0x11],
+    ];
+    let mut v = Vec::new();
+    for oid in oids {
+        for unused in 0..=255u8 {
+            for val in [vec![0x03, 0x02, unused, 0x80], vec![0x03, 0x03, unused, 0xff, 0xff], vec![0x03, 0x01, unused], vec![0x03, unused], vec![0x30, 0x05, 0x06, 0x03, 0x55, 0x1d, unused]] {
+                if unused > 8 && unused < 250 && val.len() != 4 {
+                    continue;
+                }
+                v.push(ext(48, |w| {
+                    w.block(2, "filters_len", |w| {
+                        w.block(1, "oid_len", |w| {
+                            w.bytes(oid);
+                        });
+                        w.block(2, "oid_val_len", |w| {
+                            w.bytes(&val);
+                        });
+                    });
+                }));
+            }
+        }
+    }
+    v
+}
+
+// ---------------------------------------------------------------- hello grid
+
+/// Cipher ids standing for every kind of suite the crate's table distinguishes (NULL, export, RC4, 3DES,
+/// CBC, GCM, CCM, ChaCha, ARIA/Camellia, PSK families, SRP, Kerberos, GOST, SM, the TLS 1.3 suites,
+/// signalling values, GREASE and unassigned values).
+pub const CIPHER_REPS: &[u16] = &[
+    0x0000, 0x0001, 0x0003, 0x0004, 0x0005, 0x000a, 0x0016, 0x001e, 0x002c, 0x002f, 0x0033, 0x0035, 0x003c, 0x0041, 0x0067, 0x0081,
+    0x008c, 0x0096, 0x009c, 0x009e, 0x00a8, 0x00c6, 0x00c7, 0x00ff, 0x1300, 0x1301, 0x1302, 0x1303, 0x1304, 0x1305, 0x1306, 0x1307,
+    0x1308, 0x5600, 0xc001, 0xc007, 0xc009, 0xc013, 0xc01a, 0xc02b, 0xc02f, 0xc030, 0xc035, 0xc03c, 0xc072, 0xc09c, 0xc0a8, 0xc0b4,
+    0xc0b5, 0xc100, 0xc103, 0xc106, 0xcca8, 0xccab, 0xd001, 0xd005, 0x0a0a, 0xfafa, 0xfefe, 0xffff,
+];
+
+fn grid_ext(w: &mut W, e: usize) {
+    match e {
+        0 => {}
+        1 => {
+            w.block(2, "ext_len", |_| {});
+        }
+        2 => {
+            w.block(2, "ext_len", |w| fill(w, 6, 0xe0));
+        }
+        _ => {
+            // supported_versions (selected version 0x0304) + renegotiation_info
+            w.block(2, "ext_len", |w| {
+                w.bytes(&[0x00, 0x2b, 0x00, 0x02, 0x03, 0x04, 0xff, 0x01, 0x00, 0x01, 0x00]);
+            });
+        }
+    }
+}
+
+/// The cross product of the hello fields, message `chunk` of `nchunks` (enumeration by index):
+/// version x random (magic values included) x session id x cipher id x compression id x extension block.
+/// `server`: ServerHello (TLS 1.2 form and draft-18 form), else ClientHello; `dtls`: with the DTLS
+/// handshake header (and cookie). `full`: all 256 compression ids instead of 5.
+pub fn hello_grid(server: bool, dtls: bool, full: bool, chunk: usize, nchunks: usize) -> Vec<W> {
+    let versions: &[u16] = match (server, dtls) {
+        (true, false) => &[0x0300, 0x0301, 0x0302, 0x0303, 0x7f12, 0x0304, 0xfefd, 0x0000],
+        (false, false) => &[0x0300, 0x0301, 0x0303, 0x0304, 0xfefd, 0x0000, 0xffff, 0x0002],
+        (_, true) => &[0xfeff, 0xfefd, 0xfefc, 0x0303, 0x0000],
+    };
+    let mut randoms = magic_randoms();
+    randoms.push([0x20; 32]);
+    let comps: Vec<u8> = if full { (0..=255).collect() } else { vec![0, 1, 2, 0x40, 0xff] };
+    let mut out = Vec::new();
+    let mut idx = 0usize;
+    for &version in versions {
+        for r in &randoms {
+            for sid in [0usize, 32] {
+                for &c in CIPHER_REPS {
+                    for &comp in &comps {
+                        for e in 0..4usize {
+                            idx += 1;
+                            if idx % nchunks != chunk {
+                                continue;
+                            }
+                            let body = |w: &mut W| {
+                                w.u16(version);
+                                w.bytes(r);
+                                if server {
+                                    if version == 0x7f12 {
+                                        w.u16(c);
+                                    } else {
+                                        w.block(1, "sid_len", |w| fill(w, sid, 0x90));
+                                        w.u16(c).u8(comp);
+                                    }
+                                } else {
+                                    w.block(1, "sid_len", |w| fill(w, sid, 0x80));
+                                    if dtls {
+                                        w.block(1, "cookie_len", |w| fill(w, sid / 2, 0xc0));
+                                    }
+                                    w.block(2, "ciphers_len", |w| {
+                                        if c != 0 {
+                                            w.u16(0x1301).u16(c).u16(0x00ff);
+                                        }
+                                    });
+                                    w.block(1, "comp_len", |w| {
+                                        if comp != 2 {
+                                            w.u8(comp).u8(0);
+                                        }
+                                    });
+                                }
+                                grid_ext(w, e);
+                            };
+                            out.push(if dtls { dtls_hs(if server { 2 } else { 1 }, 1, None, 0, body) } else { hs(if server { 2 } else { 1 }, body) });
+                        }
+                    }
+                }
+            }
+        }
+    }
+    out
 }
